@@ -1,7 +1,7 @@
 """Adapters for request IDs, service-1 verification reports and enumerated packet fields."""
 from __future__ import annotations
 
-from .core import outcome, octs, rxbuf, decoded
+from .core import outcome, octs, rxbuf, decoded, scramble
 from .ops_ecss import tm_proj, mk_tc
 from .probe import decode_other
 
@@ -47,6 +47,7 @@ def op_reqid_rt(a):
         q = mk_req(a["r"], a.get("via", "ctor"))
         raw = q.pack()
         d = RequestId.unpack(rxbuf(raw, a["sfx"]))
+        scramble()
         return {"octets": octs(raw), "u32": _u32(q.as_u32()), "dec": proj_req(d), "du32": _u32(d.as_u32()),
                 "eq": bool(d == q) and bool(q == d), "hashok": hash(d) == hash(q), "repack": octs(d.pack())}
     return outcome(run)
